@@ -41,7 +41,134 @@ def units(tier):
     seeds = ["0", "1", "2"] if tier == "quick" else ["0", "1", "2", "3", "4", "5", "6", "7", "random", "random"]
     from .c01 import spec_name
 
-    return [(f"pure:{spec_name(s)}|hashseeds={','.join(seeds)}", "u_hashseeds", {"spec": s, "seeds": seeds}) for s in SPECS]
+    out = [(f"pure:{spec_name(s)}|hashseeds={','.join(seeds)}", "u_hashseeds", {"spec": s, "seeds": seeds}) for s in SPECS]
+    for s in INPLACE_SPECS if tier == "quick" else INPLACE_SPECS + INPLACE_THOROUGH:
+        out.append((f"in-place updated params:{spec_name(s)}", "u_inplace", {"spec": s}))
+    return out
+
+
+INPLACE_SPECS = [("TA", dict(T=2, nw=3, nc=2)), ("TB", dict(T=2))]
+INPLACE_THOROUGH = [("TE", dict(T=2)), ("TC", dict(T=2, nw=3, nc=2))]
+
+
+def u_inplace(rec, spec):
+    """one params dict OBJECT, updated in place between the calls (the estimation-loop idiom
+    `params["beta"] = b; f(params)`): for each target the call after the update must equal the
+    result of a freshly built function called with a fresh dict holding the new values."""
+    tm = build(tuple(spec))
+    model = tm.model
+    S = sj.Session()
+    sj.SIDE.clear()
+    sj.TAGGING[0] = False
+    sj.AMBIENT[:] = []
+    T = model.n_periods
+
+    class Suffix:
+        def __init__(self, S, suf):
+            self.S, self.suf = S, suf
+
+        def real(self, name, shape=()):
+            return self.S.real(name + self.suf, shape)
+
+        def int(self, name, shape=()):
+            return self.S.int(name + self.suf, shape)
+
+    def update_in_place(dst, src):
+        for k, v in src.items():
+            if isinstance(v, dict):
+                update_in_place(dst[k], v)
+            else:
+                dst[k] = v
+
+    def copy_tree(p):
+        return {k: copy_tree(v) if isinstance(v, dict) else v for k, v in p.items()}
+
+    p1 = tm.params(S)
+    p2 = tm.params(Suffix(S, "__2"))
+    rec.symbols = S.symbols
+    sy1 = {k: v for k, v in S.symbols.items() if not k.endswith("__2")}
+    sy2 = {k[:-3]: v for k, v in S.symbols.items() if k.endswith("__2")}
+    assume = tm.assume(sy1) + tm.assume(sy2)
+    init = tm.init(S, 1)
+    assume = tm.assume({k: v for k, v in S.symbols.items() if not k.endswith("__2")}) + tm.assume(sy2)
+    stoch = bool(Ref(model, p1, S).stoch)
+    kw = {"seed": 5} if stoch else {}
+
+    # ---- solve ------------------------------------------------------------------------------
+    solve, _ = get_function(model, "solve", True)
+    pm = copy_tree(p1)
+    S.run(solve, pm)
+    update_in_place(pm, p2)
+    got = [sj.terms(v) for v in S.run(solve, pm)]
+    fresh = [sj.terms(v) for v in S.run(get_function(model, "solve", True)[0], copy_tree(p2))]
+
+    def conc_hist(target, vals, mutate):
+        va = {k: v for k, v in vals.items() if not k.endswith("__2")}
+        vb = {**va, **{k[:-3]: v for k, v in vals.items() if k.endswith("__2")}}
+        f = get_function(model, target, True)[0]
+        Ca, Cb = Conc(va), Conc(vb)
+        extra = {} if target == "solve" else {"initial_states": tm.init(Ca, 1), **kw}
+        if not mutate:
+            return f(tm.params(Cb), **extra)
+        pm = tm.params(Ca)
+        f(pm, **extra)
+        update_in_place(pm, tm.params(Cb))
+        return f(pm, **extra)
+
+    def replay_solve(vals):
+        a, b = conc_hist("solve", vals, True), conc_hist("solve", vals, False)
+        for t in range(T):
+            if not np.allclose(np.asarray(a[t]), np.asarray(b[t]), rtol=1e-12, atol=0, equal_nan=True):
+                return {"what": "solve(params) after updating the same params dict in place differs from a fresh function on the new values", "observed": np.asarray(a[t]).reshape(-1)[:6].tolist(), "expected": np.asarray(b[t]).reshape(-1)[:6].tolist()}
+        return None
+
+    for t in range(T):
+        for i, (a, b) in enumerate(zip(got[t].reshape(-1), fresh[t].reshape(-1))):
+            rec.prove(f"solve: f(p); update p in place; f(p) == fresh f(new values) [V{t}#{i}]", sj.x_eq(a, b), assume, replay=replay_solve)
+
+    # ---- solve_and_simulate -----------------------------------------------------------------
+    sas, _ = get_function(model, "solve_and_simulate", True)
+
+    def run(f, params):
+        sj.OOB[0] = 10**6
+        return S.run_paths(lambda: f(params, initial_states=init, **kw), base=assume, cap=64)
+
+    pm = copy_tree(p1)
+    first = run(sas, pm)
+    update_in_place(pm, p2)
+    second = run(sas, pm)
+    ref = run(get_function(model, "solve_and_simulate", True)[0], copy_tree(p2))
+    rec.paths += len(first) + len(second) + len(ref)
+    rec.primitives = S.trace.stats
+
+    def replay_sas(vals):
+        a, b = conc_hist("solve_and_simulate", vals, True), conc_hist("solve_and_simulate", vals, False)
+        if a.equals(b) or np.allclose(a.to_numpy(dtype=float), b.to_numpy(dtype=float), rtol=1e-9, atol=0, equal_nan=True):
+            return None
+        return {"what": "solve_and_simulate(params) after updating the same params dict in place differs from a fresh function on the new values", "observed": a.to_dict(), "expected": b.to_dict()}
+
+    # every path of the call after the update is matched with the paths of the fresh call: under the
+    # conjunction of both path conditions (if satisfiable) the frames agree entry by entry
+    import itertools
+
+    n_pairs = 0
+    for (k, (pca, dfa)), (l, (pcb, dfb)) in itertools.product(enumerate(second), enumerate(ref)):
+        both = assume + list(pca) + list(pcb)
+        r, _m = rec._check(both)
+        if r == "unsat":
+            continue  # the two paths do not overlap
+        if r != "sat":
+            rec.inconclusive(f"solve_and_simulate: overlap of paths {k},{l}", "solver could not decide whether the path conditions overlap")
+            continue
+        ca, _ = frame_terms(dfa)
+        cb, _ = frame_terms(dfb)
+        claims = [sj.x_eq(x, y) for col in ca for x, y in zip(ca[col], cb[col])]
+        claims = [c for c in claims if c is not True]
+        if not claims:
+            continue
+        n_pairs += 1
+        rec.prove(f"solve_and_simulate: f(p); update p in place; f(p) == fresh f(new values) [paths {k},{l}]", z3.And(*[sj.z(c) if not isinstance(c, bool) else z3.BoolVal(c) for c in claims]), both, replay=replay_sas)
+    return {"bounds": {"template": tm.name, "agents": 1, "paths": [len(first), len(second), len(ref)], "path_pairs": n_pairs}}
 
 
 def u_hashseeds(rec, spec, seeds):
